@@ -174,3 +174,7 @@ def _r23_4(ctx):
 # sensitivity pack (thorough tier): each seeded edit must be reported by the named rule instance
 MUTANTS = [{'name': 'seeded-C23-a', 'patch': 'C23-a/patch.diff', 'expect': ('R23.5', 'lock_non_cardinal_outputs', 'exact SatPoint lookup')},
            {'name': 'seeded-C23-b', 'patch': 'C23-b/patch.diff', 'expect': ('R23.4', 'create_unsigned_send_or_burn_runes_transaction', 'preset runic inputs')}]
+
+
+# behaviour-preserving edits (thorough tier): the rules must stay silent on every one of them
+NEUTRAL = [{'name': 'rune send: local renamed', 'file': 'src/wallet.rs', 'old': '    let inscribed_outputs = self\n      .inscriptions()\n      .keys()\n      .map(|satpoint| satpoint.outpoint)\n      .collect::<HashSet<OutPoint>>();\n\n    let balances = self\n      .get_runic_outputs()?\n      .unwrap_or_default()\n      .into_iter()\n      .filter(|output| !inscribed_outputs.contains(output))', 'new': '    let inscribed = self\n      .inscriptions()\n      .keys()\n      .map(|satpoint| satpoint.outpoint)\n      .collect::<HashSet<OutPoint>>();\n\n    let balances = self\n      .get_runic_outputs()?\n      .unwrap_or_default()\n      .into_iter()\n      .filter(|output| !inscribed.contains(output))'}]
